@@ -33,7 +33,7 @@ impl Monitor for C12 {
 		"C12"
 	}
 	fn rule(&self) -> String {
-		"C01's replay space (small/medium histories; every 5th generated replay also carries unknown events with 2..600-byte payloads); the incremental API (parse_header, parse_start, parse_event per call, parse_metadata) is driven (with the options argument rotating over None / default / skip_frames / compute_hash - none may matter on this path) over the instrumented source under schedules {whole, 1-byte, fixed 2/3/7/64 and one drawn from {4..17, 255..257, 512, 8192}, random 1..4, random 1..200, two-piece splits: ALL for every 6th file <= 2.5 KB in quick and every 2nd file <= 8 KB in thorough, else 32 random}. Online monitor after EVERY call: bytes_read() == bytes delivered by the counting source - 15 (header); row count never decreases; the completed rows (rows closed by Frame End >= 3.0; all but the open row otherwise) equal, column by column, the same prefix of the one-shot game (checked at every event for the newest completed row and in full at end of stream). Final: start/end/metadata/gecko via the Game trait equal the one-shot result. One evaluation = one (file, schedule) run. distinct = workload classes x schedule; counters give calls monitored.".into()
+		"C01's replay space (small/medium histories; every 5th generated replay also carries unknown events with 2..600-byte payloads); the incremental API (parse_header, parse_start, parse_event per call, parse_metadata) is driven (with the options argument rotating over None / default / skip_frames / compute_hash - none may matter on this path) over the instrumented source under schedules {whole, 1-byte, fixed 2/3/7/64 and one drawn from {4..17, 255..257, 512, 8192}, random 1..4, random 1..200, whole reads with every k-th call answered by ErrorKind::Interrupted, two-piece splits: ALL for every 6th file <= 2.5 KB in quick and every 2nd file <= 8 KB in thorough, else 32 random}. Online monitor after EVERY call: bytes_read() == bytes delivered by the counting source - 15 (header); row count never decreases; the completed rows (rows closed by Frame End >= 3.0; all but the open row otherwise) equal, column by column, the same prefix of the one-shot game (checked at every event for the newest completed row and in full at end of stream). Final: start/end/metadata/gecko via the Game trait equal the one-shot result. One evaluation = one (file, schedule) run. distinct = workload classes x schedule; counters give calls monitored.".into()
 	}
 	fn assumptions(&self) -> Vec<String> {
 		vec!["the one-shot reader is the reference for the final game (itself checked against the independent model by C03/C04)".into(), "before v3.0 nothing in the stream closes the last frame, so the last row is only compared when it is materially complete".into()]
@@ -85,7 +85,7 @@ impl Monitor for C12 {
 		let closes_on_end = crate::spec::gte(truth.v(), (3, 0));
 		let mut rng = crate::rng::Rng::derive(ctx.seed, 0xC12 ^ idx as u64);
 		let big = bytes.len() > 100_000;
-		let mut policies = if big { vec![Policy::Whole, Policy::Random(200, rng.next())] } else { vec![Policy::Whole, Policy::Fixed(1), Policy::Fixed(2), Policy::Fixed(3), Policy::Fixed(7), Policy::Fixed(64), Policy::Random(4, rng.next()), Policy::Random(200, rng.next()), Policy::Fixed(*rng.pick(&[4usize, 5, 6, 8, 9, 10, 11, 12, 13, 14, 15, 16, 17, 255, 256, 257, 512, 8192]))] };
+		let mut policies = if big { vec![Policy::Whole, Policy::Random(200, rng.next())] } else { vec![Policy::Whole, Policy::Fixed(1), Policy::Fixed(2), Policy::Fixed(3), Policy::Fixed(7), Policy::Fixed(64), Policy::Random(4, rng.next()), Policy::Random(200, rng.next()), Policy::Fixed(*rng.pick(&[4usize, 5, 6, 8, 9, 10, 11, 12, 13, 14, 15, 16, 17, 255, 256, 257, 512, 8192])), Policy::Interrupt(*rng.pick(&[2usize, 3, 5, 40]))] };
 		let all_splits = bytes.len() <= ctx.tier.pick(2500, 8_000) && idx % ctx.tier.pick(6, 2) == 0;
 		if all_splits {
 			for p in 1..bytes.len() {
